@@ -150,6 +150,40 @@ def campaign(c):
         c.count('outcome:' + impl['outcome'][0])
         c.case(key, dict(src=rep['src'][:300], outcome=str(impl['outcome'])) if key else None)
         progs[name] = (src, base_sha, impl['rc'])
+    # diagnostics (warnings included) of programs that discard a value of every kind: two runs must print the same text
+    discard = ('import ipv4;\nimport text;\nimport std;\nimport io;\nlet f = ipv4::tcp::flow(1.2.3.4:1, 5.6.7.8:2);\nlet u = ipv4::udp::flow(1.2.3.4:1, 5.6.7.8:2);\n'
+               'ipv4::tcp::flow;\nf.open;\nf;\nu;\ntext::concat("a", "|ff|");\nstd::be16;\n5;\n'.replace('\n5;\n', '\n')) + 'text::len("x");\n1.2.3.4;\nlet b = io::bufio("q");\nb;\nb.read;\n'
+    outs = []
+    for env in ENVS[:2] + ENVS[:1]:
+        res, per, rc, err = run_at({'w': discard.encode()}, ['w'], env, None, 'o')
+        outs.append(([re.sub(r'\S*/(\w+\.(?:rsyn|pcap))', r'\1', l) for l in per['w']], rc))
+    for o in outs[1:]:
+        if o != outs[0]:
+            diff = [a for a, b in zip(outs[0][0], o[0]) if a != b][:1]
+            c.violation('det:warning-text', 'the warnings printed for discarded values differ from run to run: %s' % (diff[0][:160] if diff else o[1]), dict(src=discard))
+            break
+    c.case(('discard',), dict(kind='discarded-values', lines=len(outs[0][0])))
+    # the output must not depend on what was at the output path before: longer stale file, same-stem batch
+    d = tempfile.mkdtemp(prefix='rso')
+    try:
+        big = b'import eth;\n' + b'eth::frame("|000000000001|", "|000000000002|", "0123456789012345678901234567890123456789");\n' * 8
+        small = b'import eth;\neth::frame("|000000000001|", "|000000000002|", "x");\n'
+        ref = core.run_cli(small, name='s')['pcap']
+        os.makedirs(os.path.join(d, 'a')); os.makedirs(os.path.join(d, 'b')); os.makedirs(os.path.join(d, 'o'))
+        open(os.path.join(d, 'a', 's.rsyn'), 'wb').write(big); open(os.path.join(d, 'b', 's.rsyn'), 'wb').write(small)
+        subprocess.run([core.CLI, '--out-dir', os.path.join(d, 'o'), os.path.join(d, 'a', 's.rsyn')], capture_output=True, timeout=60)
+        subprocess.run([core.CLI, '--out-dir', os.path.join(d, 'o'), os.path.join(d, 'b', 's.rsyn')], capture_output=True, timeout=60)
+        got = open(os.path.join(d, 'o', 's.pcap'), 'rb').read()
+        if got != ref:
+            c.violation('det:stale-output', 'compiling over an existing longer output file leaves %d stale bytes behind (result depends on which run it is)' % (len(got) - len(ref)), dict(src=small.decode()))
+        os.remove(os.path.join(d, 'o', 's.pcap'))
+        subprocess.run([core.CLI, '--out-dir', os.path.join(d, 'o'), os.path.join(d, 'a', 's.rsyn'), os.path.join(d, 'b', 's.rsyn')], capture_output=True, timeout=60)
+        got = open(os.path.join(d, 'o', 's.pcap'), 'rb').read()
+        if got != ref:
+            c.violation('det:stale-output-batch', 'two inputs mapped to the same output in one batch: the second result depends on the first', dict(src=small.decode()))
+        c.case(('stale',), dict(kind='stale-output'))
+    finally:
+        shutil.rmtree(d, ignore_errors=True)
     # batches: same files together, in two orders, with failing members
     names = list(progs)
     for b in range(6 if c.quick else 60):
